@@ -28,10 +28,10 @@ BASE_FLAGS = ["-std=gnu11", "-UNDEBUG", "-O0", "-Xclang", "-disable-O0-optnone",
               "-fno-discard-value-names", "-Wno-everything"]
 
 # Normalisation before analysis: in these units every file-local (static, including static inline functions from
-# headers) function that has no loop and is NOT listed here is inlined into its callers (opt always-inline).  The listed names are
+# headers) function that is NOT listed here is inlined into its callers (opt always-inline).  The listed names are
 # the static functions of the tree the rules were written against (anchors the rules name); anything else is a helper a
 # later refactoring extracted, and the rules should see through it.  Inlining preserves semantics, so a verdict on the
-# normalised unit is a verdict on the unit.  Helpers with loops stay functions (rules summarise them or decline).
+# normalised unit is a verdict on the unit.
 INLINE_KEEP = {
     "librfn/bintree.c": ["bintree_traverse_in_order_depth", "bintree_traverse_post_order_depth", "bintree_traverse_pre_order_depth",
                          "in_order_iterator", "list_left_iterator", "list_right_iterator", "post_order_iterator",
@@ -47,6 +47,10 @@ INLINE_KEEP = {
     "librfn/pack.c": [], "librfn/ringbuf.c": [], "librfn/messageq.c": [], "librfn/rotenc.c": [], "librfn/rand.c": [],
     "librfn/list.c": [], "librfn/bitops.c": [], "librfn/regdump.c": [],
 }
+
+# Helpers that contain a loop are inlined as well, except in these units, whose rules summarise such helpers as
+# functions (C20: the range-walk helper of mlog_dump).
+KEEP_LOOP_HELPERS = {"librfn/mlog.c"}
 
 _workdir = None
 _lock = threading.Lock()
@@ -132,8 +136,9 @@ def compile_unit(path, config="default", extra=(), repo=None, mem2reg=True, inli
         base_js = compile_unit(path, config, extra, repo, mem2reg, None)
         m0 = ir.Module(base_js, unit=path, config=config)
         bn = os.path.basename(path)
+        rel = path[len(repo or REPO) + 1:] if path.startswith((repo or REPO) + "/") else path
         victims = sorted(f.name for f in m0.defined_functions()
-                         if f.internal and f.name not in inline_except and not f.loops_headers())
+                         if f.internal and f.name not in inline_except and (rel not in KEEP_LOOP_HELPERS or not f.loops_headers()))
         if not victims:
             return base_js
         tag = hashlib.sha1((path + "|" + config + "|" + " ".join(extra) + "|inl|" + ",".join(victims)).encode()).hexdigest()[:12]
